@@ -88,6 +88,9 @@ class TALFileHandler(FileHandler):
             self.entry.realencoding = self.entry.encoding
             self.entry.encoding = None
             self.entry.type = self.entry.guesstype()
+            # The client receives the expanded template, whose length is not
+            # the size of the template file.
+            self.entry.size = None
 
         return self.entry
 
